@@ -64,8 +64,32 @@ def new(cls):
                 return None
             return cls(d)
         return cls()
+    except TypeError:
+        return _new_with_args(cls)
     except Exception:  # noqa: BLE001
         return None
+
+
+def _new_with_args(cls):
+    """Classes whose constructor has required parameters: the smallest sensible arguments."""
+    from sdc11073.xml_types import pm_types as pm
+    name = cls.__name__
+    try:
+        if name in ('CodedValue', 'Translation', 'TranslationType'):
+            return cls('12345')
+        if name == 'LocalizedText':
+            return cls('text')
+        if name == 'Measurement':
+            return cls(Decimal('1.5'), pm.CodedValue('262656'))
+        if name in ('ReferenceRange', 'ReferenceRangeType'):
+            return cls(pm.Range(lower=Decimal('1'), upper=Decimal('2')))
+        if name == 'RelatedMeasurement':
+            return cls(pm.Measurement(Decimal('1.5'), pm.CodedValue('262656')))
+        if name == 'RetrievabilityInfo':
+            return cls(pm.RetrievabilityMethod.GET)
+    except Exception:  # noqa: BLE001
+        return None
+    return None
 
 
 TAG = etree.QName('urn:verif', 'X')
@@ -93,6 +117,11 @@ def from_node(cls, node, like=None):
         st = cls(like.descriptor_container if like is not None else descriptor_for_state(cls))
         st.update_from_node(node)
         return st
+    if cls.__name__ == 'Metadata' and cls.__module__.endswith('mex_types'):
+        # mex Metadata.from_node takes the node that contains wsx:Metadata (the soap body)
+        body = etree.Element('body')
+        body.append(node)
+        return cls.from_node(body)
     return cls.from_node(node)
 
 
@@ -287,6 +316,19 @@ def domain(prop, depth=2):
         return ['x', 'a<&"\' ä€', 'two words']
     if cname in ('NodeStringProperty', 'AnyUriTextElement'):
         return ['text', 'a<&>" ä€', 'urn:x:y']
+    if cname == 'NodeTextProperty':
+        kname = type(conv).__name__ if not isinstance(conv, type) else conv.__name__
+        if 'Int' in kname:
+            return [3, 0, 4294967295] if 'Unsigned' in kname else [3, 0]
+        if 'Decimal' in kname:
+            return [Decimal('1.5'), Decimal('0')]
+        if 'Duration' in kname:
+            return [2.0, 0.001]
+        if 'Timestamp' in kname:
+            return [1.5, 1700000000.123]
+        if 'Bool' in kname:
+            return [True, False]
+        return ['text', 'a<&>" ä€']
     if cname == 'NodeTextQNameProperty':
         return [etree.QName('urn:verif', 'q1')]
     if cname == 'NodeTextQNameListProperty':
